@@ -124,7 +124,7 @@ lemma PermAmtAll(a seq[Element], b seq[Element], n int)
   { use PermDistinct(a, b, n); use forall x string :: PermAmt(a, b, n, x) }
 
 // a recipe book as the loader builds it: a non-nil map whose values are non-nil
-pred WfDB(db DBNodeMap) := db != nil && (forall k string :: {db[k]} k in db ==> db[k] != nil)
+pred WfDB(db DBNodeMap) := db != nil && (forall k string :: {db[k]} k in db ==> mapget(db, k) != nil)
 
 func (*Elements).Index returns (n, ok)
   props C01 C02
@@ -201,4 +201,81 @@ func (Elements).Sort
   modifies elems(el)
   ensures @sorted Sorted(elems(el), len(el))
   ensures @perm PermOf(old(elems(el)), elems(el), len(el))
+
+// ---------------------------------------------------------------------------------------------
+// Accumulator: per name a pair (negative register, positive register)
+// ---------------------------------------------------------------------------------------------
+// (the value slices of different names do not share their backing array: accKey is the ghost inverse
+//  "backing array -> name", which states injectivity with one quantified variable)
+ghost accKey fmap[int]string
+pred WfAcc(acc Accumulator) :=
+     acc != nil
+  && (forall k string :: {acc[k]} k in acc ==> len(mapget(acc, k)) == 2 && arr(mapget(acc, k)) != 0 && arr(mapget(acc, k)) < alloc() && accKey[arr(mapget(acc, k))] == k)
+macro AccPos(acc Accumulator, x string) float64 := if x in acc then mapget(acc, x)[1] else 0.0
+macro AccNeg(acc Accumulator, x string) float64 := if x in acc then mapget(acc, x)[0] else 0.0
+
+// Add routes a value by its sign: negative values to the negative register, all others to the positive one;
+// no other name is touched
+func (Accumulator).Add
+  props C02 C07
+  requires @wf WfAcc(acc)
+  modifies mapof(acc), elems(acc[name])
+  modifies ghost(accKey)
+  ensures @wf WfAcc(acc) && name in acc
+  ensures @key accKey == store(old(accKey), arr(acc[name]), name)
+  ghost after mapupdate 1 { set accKey := store(accKey, arr(acc[name]), name) }
+  ensures @keys forall k string :: {acc[k]} k != name ==> (k in acc) == old(k in acc) && acc[k] == old(acc[k])
+  ensures @negative val < 0.0  ==> AccNeg(acc, name) == old(AccNeg(acc, name)) + val && AccPos(acc, name) == old(AccPos(acc, name))
+  ensures @positive val >= 0.0 ==> AccPos(acc, name) == old(AccPos(acc, name)) + val && AccNeg(acc, name) == old(AccNeg(acc, name))
+  ensures @others forall x string :: {acc[x]} x != name ==> AccPos(acc, x) == old(AccPos(acc, x)) && AccNeg(acc, x) == old(AccNeg(acc, x))
+  ensures @fresh-or-same forall k string :: {acc[k]} k in acc ==> (old(k in acc) && arr(acc[k]) == old(arr(acc[k]))) || fresh(arr(acc[k]))
+
+// ---------------------------------------------------------------------------------------------
+// NewLogNodeFromElements: the day's entries merged by food name: every distinct food once, with the sum of
+// its logged quantities, in the order of first appearance
+// ---------------------------------------------------------------------------------------------
+// FirstIdx: least index i<k with el[i].Name == x (or -1)
+fun FirstIdx(el seq[Element], k int, x string) int :=
+  if k <= 0 then 0 - 1 else (if FirstIdx(el, k - 1, x) >= 0 then FirstIdx(el, k - 1, x) else (if el[k-1].Name == x then k - 1 else 0 - 1))
+// merged list m (length n) lists the names of el[0..k) in order of first appearance
+pred FirstOrder(m seq[Element], n int, el seq[Element], k int) := forall p, q int :: {m[p], m[q]} 0 <= p && p < q && q < n ==> 0 <= FirstIdx(el, k, m[p].Name) && FirstIdx(el, k, m[p].Name) < FirstIdx(el, k, m[q].Name)
+
+func NewLogNodeFromElements returns (ln, err)
+  props C02 C07 C12
+  ensures @result err == nil && ln != nil && fresh(ln) && ln.Time == time && ln.Metadata == metadata
+  ensures @distinct [C02] Distinct(elems(ln.Elements), len(ln.Elements))
+  ensures @sums [C02 C07] forall x string :: {SpecAmt(elems(ln.Elements), len(ln.Elements), x)} SpecAmt(elems(ln.Elements), len(ln.Elements), x) == SpecAmt(elems(elements), len(elements), x)
+  ensures @foods [C02] forall x string :: {SpecHas(elems(ln.Elements), len(ln.Elements), x)} SpecHas(elems(ln.Elements), len(ln.Elements), x) == SpecHas(elems(elements), len(elements), x)
+  ensures @input-unchanged elems(elements) == old(elems(elements))
+  loop 1 {
+    pre { unfold forall x string :: SpecAmt(elems(elements), 0, x); unfold forall x string :: SpecHas(elems(elements), 0, x); unfold forall x string :: SpecAmt(elems(elList), 0, x); unfold forall x string :: SpecHas(elems(elList), 0, x); unfold Distinct(elems(elList), len(elList)) }
+    invariant @params elements == old(elements) && elems(elements) == old(elems(elements)) && arr(elList) >= old(alloc()) && arr(elList) != 0
+    invariant @distinct Distinct(elems(elList), len(elList))
+    invariant @sums forall x string :: {SpecAmt(elems(elList), len(elList), x)} SpecAmt(elems(elList), len(elList), x) == SpecAmt(elems(elements), #i, x)
+    invariant @foods forall x string :: {SpecHas(elems(elList), len(elList), x)} SpecHas(elems(elList), len(elList), x) == SpecHas(elems(elements), #i, x)
+  }
+  ghost before call 1 Index {
+    unfold Distinct(elems(elList), len(elList))
+    let k1 := #i + 1
+    unfold forall x string :: SpecAmt(elems(elements), k1, x)
+    unfold forall x string :: SpecHas(elems(elements), k1, x)
+  }
+  ghost after store 1 {
+    use AmtStoreInsideAll(at(loop1, elems(elList)), len(elList), ndx, at(loop1, elems(elList))[ndx].Value + el.Value)
+    use HasAt(at(loop1, elems(elList)), len(elList), ndx)
+    assert @merged-sums forall x string :: {SpecAmt(elems(elList), len(elList), x)} SpecAmt(elems(elList), len(elList), x) == SpecAmt(elems(elements), k1, x)
+    assert @merged-foods forall x string :: {SpecHas(elems(elList), len(elList), x)} SpecHas(elems(elList), len(elList), x) == SpecHas(elems(elements), k1, x)
+    unfold Distinct(elems(elList), len(elList))
+    assert @merged-distinct Distinct(elems(elList), len(elList))
+  }
+  ghost after call 1 Add {
+    let n1 := len(elList)
+    use AmtAgreeAll(at(loop1, elems(elList)), elems(elList), at(loop1, len(elList)))
+    unfold forall x string :: SpecAmt(elems(elList), n1, x)
+    unfold forall x string :: SpecHas(elems(elList), n1, x)
+    assert @appended-sums forall x string :: {SpecAmt(elems(elList), len(elList), x)} SpecAmt(elems(elList), len(elList), x) == SpecAmt(elems(elements), k1, x)
+    assert @appended-foods forall x string :: {SpecHas(elems(elList), len(elList), x)} SpecHas(elems(elList), len(elList), x) == SpecHas(elems(elements), k1, x)
+    unfold Distinct(elems(elList), len(elList))
+    assert @appended-distinct Distinct(elems(elList), len(elList))
+  }
 @*/
